@@ -154,7 +154,7 @@ def auto_cases(draw, tier):
 
 
 SUBS = [
-    Sub(name='states', kind='hyp', run=run, strategy=lambda tier: gen.hop_systems(tier=tier, max_frames=10 if tier == 'quick' else 24, max_diff=3 if tier == 'quick' else 5),
+    Sub(name='states', kind='hyp', run=run, strategy=lambda tier: gen.hop_systems(tier=tier, max_frames=10 if tier == 'quick' else 24, max_diff=3 if tier == 'quick' else 5, labels=('A', 'A1', 'B', 'A10')),
         rule='all lattice families x 3 orientations; 1-6 labelled sites (corner/face positions over-represented); radius float or per-label dict; inner fraction in (0,1]; atoms placed deep inside / at the inner edge / in the shell / at the outer edge / just outside / interstitial along 26 directions',
         n={'quick': 150, 'thorough': 2500}, shards={'quick': 12, 'thorough': 16}),
     Sub(name='automatic-radius', kind='hyp', run=run_auto, strategy=auto_cases,
